@@ -202,6 +202,28 @@ def templates(roles, rng):
         ("function:parameter-extends-bound-name", ("call", ("fundef", [e1, "qq"], ("sub", ("name", e1), ("name", "qq"))), [N1, N2])),
         ("function:parameter-extends-earlier-parameter", ("call", ("fundef", ["pp", "pp rr"], ("sub", ("name", "pp"), ("name", "pp rr"))), [N1, N2])),
     ]
+    # an introduced name that SHADOWS a bound name (same spelling) ends with its construct: the bound value is visible again
+    # right after it, whatever way the construct was left (a quantifier decided early, a filter, an invocation)
+    sh = roles["n2"]
+    SH = ("name", sh)
+    out += [
+        ("after-some-true:variable-shadows-bound-name", ("list", [("some", [(sh, L)], ("cmp", ">", SH, num("0"))), N2, ("add", N2, N1)])),
+        ("after-some-false:variable-shadows-bound-name", ("list", [("some", [(sh, L)], ("cmp", ">", SH, num("100000"))), N2])),
+        ("after-every-false:variable-shadows-bound-name", ("list", [("every", [(sh, L)], ("cmp", ">", SH, num("4"))), N2, ("add", N2, N1)])),
+        ("after-every-true:variable-shadows-bound-name", ("list", [("every", [(sh, L)], ("cmp", ">", SH, num("0"))), N2])),
+        ("after-for:variable-shadows-bound-name", ("list", [("for", [(sh, ("dom_list", L))], ("add", SH, num("1"))), N2])),
+        ("after-function:parameter-shadows-bound-name", ("list", [("call", ("fundef", [sh], ("add", SH, num("1"))), [num("5")]), N2])),
+        ("after-context:key-shadows-bound-name", ("list", [("path", ("ctx", [(sh, num("1")), ("other", ("add", SH, num("1")))]), "other"), N2])),
+        ("after-nested-quantifiers:variables-shadow-bound-names", ("list", [("some", [(sh, L)], ("every", [(roles["n1"], L)], ("cmp", ">=", ("add", SH, N1), num("2")))), N2, N1])),
+    ]
+    if "n3" in roles:
+        for op, sym in (("sub", "-"), ("add", "+"), ("mul", "*"), ("div", "/")):
+            if roles.get("sym") == sym:
+                continue
+            joined = "%s%s%s" % (roles["n2"], sym, roles["n3"])
+            J = ("name", joined)
+            out.append(("after-some-true:variable-joins-bound-names:" + op, ("list", [("some", [(joined, L)], ("cmp", ">", J, num("0"))), (op, N2, ("name", roles["n3"]))])))
+            out.append(("after-every-false:variable-joins-bound-names:" + op, ("list", [("every", [(joined, L)], ("cmp", ">", J, num("4"))), (op, N2, ("name", roles["n3"]))])))
     # formal parameters of an EXTERNAL function definition (a body the evaluator does not run) must not stay bound after it:
     # the joined spelling of two bound names is a parameter there, and arithmetic again afterwards
     for op, sym in (("sub", "-"), ("add", "+"), ("mul", "*"), ("div", "/")):
